@@ -101,4 +101,21 @@ def ofOption {α : Type} : Option α → Obj.R α
   | some a => .ok a
   | none => .error .wrong
 
+/-! ### Struct fields that come in `(x, xErr)` pairs, held as one result (`extract/go2lean5.go`) -/
+
+/-- `errors.Is(r.xErr, target)` for a field pair: false when `xErr` is nil. -/
+def errIs {α : Type} (r : Obj.R α) (target : Obj.Err) : Bool :=
+  match r with
+  | .error e => decide (e = target)
+  | .ok _ => false
+
+/-- `r.xErr == nil` for a field pair. -/
+def errNil {α : Type} (r : Obj.R α) : Bool :=
+  match r with
+  | .ok _ => true
+  | .error _ => false
+
+/-- `u.String()` for a parsed URL, which is represented by that string. -/
+def urlString (u : Str) : Str := u
+
 end Go
